@@ -684,6 +684,61 @@ func genSlices(ps []pkgInfo) string {
 		fmt.Fprintf(&b, "(* %s.%s, %s slice — %s:%d *)\nDefinition %s %s : res %s :=\n  %s.\n\n", sp.typ, sp.method, sp.kind, strings.TrimPrefix(pos.Filename, *repo+"/"), pos.Line, name, params, rt, body)
 	}
 	b.WriteString(primCalls(pi))
+	b.WriteString("\n")
+	// the tag stripping at the head of the six UnmarshalCBOR methods: the run of `if bytes.HasPrefix(data, ..) { data = data[n:] }`
+	for _, typ := range []string{"Sign1Message", "SignMessage", "Mac0Message", "MacMessage", "Encrypt0Message", "EncryptMessage"} {
+		name := "cose_" + typ + "_UnmarshalCBOR_strip"
+		stub := func(why string) {
+			fmt.Fprintln(os.Stderr, "gen: T12:", name, "not translated:", why)
+			fmt.Fprintf(&b, "(* %s — NOT TRANSLATED: %s *)\nDefinition %s : unit := tt.\n\n", name, strings.ReplaceAll(why, "*)", "* )"), name)
+		}
+		var fd *ast.FuncDecl
+		for _, file := range pi.p.Syntax {
+			for _, d := range file.Decls {
+				if x, ok := d.(*ast.FuncDecl); ok && x.Body != nil && funcName(x) == typ+"_UnmarshalCBOR" {
+					fd = x
+				}
+			}
+		}
+		if fd == nil || len(fd.Type.Params.List) != 1 || len(fd.Type.Params.List[0].Names) != 1 {
+			stub("method not found")
+			continue
+		}
+		dn := fd.Type.Params.List[0].Names[0].Name
+		var run []ast.Stmt
+		started, ended := false, false
+		for _, st := range fd.Body.List {
+			is := strings.HasPrefix(ifCondText(st), "bytes.HasPrefix("+dn+", ")
+			switch {
+			case is && ended:
+				run = nil // a second run further down: not the shape
+				started = false
+			case is:
+				started = true
+				run = append(run, st)
+			case started:
+				ended = true
+			}
+		}
+		if len(run) == 0 {
+			stub("no run of prefix tests on the input")
+			continue
+		}
+		// the input must not be touched before the run, and decoded right after it from the same variable
+		f := &ftr{pi: *pi, all: ps, fd: fd, declared: map[string]int{}, byteVars: map[string]string{}, names: map[types.Object]string{}}
+		if obj := pi.p.TypesInfo.Defs[fd.Type.Params.List[0].Names[0]]; obj != nil {
+			f.names[obj] = "data"
+		}
+		f.declared["data"] = 1
+		ir := f.lower(run)
+		body := f.emit(ir, kont{kind: 3, state: []string{"data"}}, map[string]bool{"data": true})
+		if f.err != nil {
+			stub(f.err.Error())
+			continue
+		}
+		pos := pi.p.Fset.Position(run[0].Pos())
+		fmt.Fprintf(&b, "(* %s.UnmarshalCBOR, tag stripping — %s:%d *)\nDefinition %s (data : bytes) : res bytes :=\n  %s.\n\n", typ, strings.TrimPrefix(pos.Filename, *repo+"/"), pos.Line, name, body)
+	}
 	return b.String()
 }
 
